@@ -1,6 +1,6 @@
-SPECIFICATION FairSpec
+SPECIFICATION SpecPOR
 CONSTANTS
-  NConc = 1
+  NConc = 0
   NPost = 0
   BareSendPublishBatch = FALSE
   BareSendDiscover = FALSE
@@ -12,8 +12,8 @@ CONSTANTS
   MaxRetry = 0
   MaxDirect = 0
   ConnCap = 1
-  FirstMsgBuffered = TRUE
-  MaxNewPeer = 0
+  FirstMsgBuffered = FALSE
+  MaxNewPeer = 1
   BootArmEval = TRUE
   BootArmQ = TRUE
   BootArmDone = TRUE
@@ -23,8 +23,8 @@ CONSTANTS
   BatchCap = 1
   DiscCap = 1
   SendCap = 1
-  MaxTicks = 1
+  MaxTicks = 0
   MaxRemote = 0
-INVARIANTS TypeOK P_C14_Returns P_C14_Exit P_C14_NoPanic
-PROPERTIES LiveReturns LiveExit
+INVARIANTS TypeOK P_C14_Returns_POR P_C14_Exit_POR P_C14_NoPanic
+VIEW NoRes
 CHECK_DEADLOCK FALSE
